@@ -623,7 +623,8 @@ mod real {
             }
             let len = std::fs::metadata(Path::new(&rest[1]).join(&rest[2])).map(|m| m.len() as usize).unwrap_or(0);
             println!("@@S 0");
-            let ev = eval_file(&rest[1], &rest[2], len, "replay");
+            let region = rest.get(3).map(|s| s.as_str()).unwrap_or("replay");
+            let ev = eval_file(&rest[1], &rest[2], len, region);
             for (sig, d) in &ev.viols {
                 println!("@@V 0\t{}\t{}", sig, clean(d));
             }
@@ -1004,6 +1005,7 @@ mod real {
     pub fn replay(r: &str, args: &Args) {
         let dir = temp_dir();
         let mut rep = Report::new();
+        let mut region = "replay";
         let data: Vec<u8> = if let Some(h) = r.strip_prefix("file:") {
             from_hex(h).unwrap_or_else(|e| harness_broken(&e))
         } else if let Some(rest) = r.strip_prefix("dump:") {
@@ -1024,6 +1026,7 @@ mod real {
                 Some("multi") => Mutation::Multi(num(2)),
                 _ => harness_broken("dump:<name>:trunc:<len> | sub:<pos>:<hex> | multi:<seed> | intact"),
             };
+            region = region_of(&annotate(&bytes), &m);
             apply(&bytes, &m)
         } else {
             harness_broken("replay string must start with file: or dump:");
@@ -1033,7 +1036,7 @@ mod real {
         println!("replaying a {}-byte file in a child process", data.len());
         let start = Instant::now();
         let res = run_child(
-            &["--child-batch".into(), "file".into(), dir.to_string_lossy().to_string(), "replay.rdb".into()],
+            &["--child-batch".into(), "file".into(), dir.to_string_lossy().to_string(), "replay.rdb".into(), region.to_string()],
             Duration::from_secs(20),
         );
         rep.evaluations = 1;
